@@ -23,6 +23,7 @@ pub fn resolve_ifs(
                 report,
                 decls,
                 defs,
+                &util::SymbolContext::new_global(),
                 &node.condition_expr)?;
 
         let expr::Value::Bool(condition_result) = condition_result
